@@ -1,7 +1,7 @@
 (* C10 — timing engine.  Property theorems only: each is closed by [exact] from Proofs/. *)
 From Coq Require Import ZArith QArith Qround Qabs List Bool.
 From RV Require Import Base.PyNum Timing.Snapper Timing.Snap Timing.TimingMap Timing.Integrate
-  Generated.Tables Proofs.SnapperProofs.
+  Generated.Tables Proofs.SnapperProofs Proofs.TimingProofs.
 Import ListNotations.
 Open Scope Q_scope.
 
@@ -25,6 +25,42 @@ Proof. exact (snapper_snap_within (1 # 96) tbl C10_table_ok). Qed.
 
 Theorem C10_snapper_idempotent : forall x, snapper_snap tbl (snapper_snap tbl x) == snapper_snap tbl x.
 Proof. exact (snapper_snap_idem (1 # 96) tbl C10_table_ok). Qed.
+
+(* TimingMap.offsets returns its results IN THE ORDER OF THE QUERIES: sorting the queries, sweeping them in reverse
+   with a persistent cursor and un-permuting is the per-query lookup (any multiset of queries, any order, duplicates) *)
+Theorem C10_offsets_in_query_order : forall tbl bcos qs bcss,
+  bco_to_bcs tbl (sort_by bco_lt bcos) = Some bcss ->
+  let full := rev (combine (sort_by bco_lt bcos) bcss) in
+  (forall q, In q qs -> exists v, lookup_time full q = Some v) ->
+  exists res, tm_offsets tbl bcos qs = Some res /\ Forall2 (fun q r => lookup_time full q = Some r) qs res.
+Proof. exact tm_offsets_lookup. Qed.
+
+(* ... and equals piecewise-linear integration of beat length over the tempo segments, for every timing map whose
+   re-derived positions are increasing, normalised and integrate back to its stored offsets (tempo changes given in ANY
+   order: they are sorted by time first), any initial offset, any positive bpms and metronomes *)
+Theorem C10_offsets_integrate : forall tbl bcos qs bcss p0 rest,
+  bco_to_bcs tbl (sort_by bco_lt bcos) = Some bcss ->
+  combine (sort_by bco_lt bcos) bcss = p0 :: rest ->
+  incr_pairsb p0 rest && consistentb p0 rest && pairs_wfb (p0 :: rest) && forallb (query_okb p0) qs = true ->
+  exists res, tm_offsets tbl bcos qs = Some res
+              /\ Forall2 (fun q r => r == time_of (p_t p0) (map snd (p0 :: rest)) q) qs res.
+Proof. exact offsets_integrate_b. Qed.
+
+(* non-vacuity of the hypotheses: three tempo changes given out of order, negative initial offset, metronome 3,
+   queries unsorted with a duplicate and one exactly on a change *)
+Example C10_offsets_example :
+  let bcos := [mkBco 240 3 3000; mkBco 120 3 (-1000); mkBco 60 3 500] in
+  let qs := [mkSnap 2 (1#2) 3; mkSnap 0 0 3; mkSnap 1 0 3; mkSnap 2 (1#2) 3; mkSnap 0 (5#2) 3] in
+  match bco_to_bcs tbl (sort_by bco_lt bcos) with
+  | Some bcss =>
+      match combine (sort_by bco_lt bcos) bcss with
+      | p0 :: rest => incr_pairsb p0 rest && consistentb p0 rest && pairs_wfb (p0 :: rest) && forallb (query_okb p0) qs = true
+                      /\ tm_offsets tbl bcos qs = Some [3250; -1000; 500; 3250; 250]
+      | [] => False
+      end
+  | None => False
+  end.
+Proof. vm_compute. split; reflexivity. Qed.
 
 (* non-vacuity: the default divisions are all representable: k/d is a fixed point for d in DEFAULT_DIVISIONS *)
 Example C10_divisions_in_table :
